@@ -142,3 +142,40 @@ func VpC11Generated() {
 	vp.Observe("match", gotOff)
 	vp.Reached("end")
 }
+
+// VpC11NonASCII: the regex model used above covers ASCII input only.  Here both the patterns
+// (non-ASCII classes and literals, invalid-UTF-8 aware) and the inputs (valid and invalid UTF-8,
+// including single bytes >= 0x80 that Go's regexp reads as U+FFFD) are enumerated from pools,
+// so the host regexp runs on concrete text: the match result and the captures with the
+// prefilter on must equal those with it off.
+func VpC11NonASCII() {
+	pats := []string{
+		`[^\x00-\x7F]`, `id=([^\x00-\x7F]{2})`, `[^[:ascii:]]x`, `\p{So}`, "café", "(?i)CAFÉ", "é+x", `a[^\x00-\x7F]b`,
+		"[é�]z", `(?i)\x{212a}elvin`, "é|ab", `^[^\x00-\x7F]+$`,
+	}
+	ins := []string{
+		"\xff", "id=\xe9\xe8", "\xe9x", "☃", "café", "CAFÉ", "cafe", "ééx", "a\xffb", "aéb", "\xefz", "�z",
+		"kelvin", "Kelvin", "ab", "\xc3", "\xc3\xa9", "",
+	}
+	pat := pats[vp.Choice("pattern", len(pats))]
+	in := ins[vp.Choice("input", len(ins))]
+	pair := vp.Setup("c11n:"+pat, func() any {
+		on, err1 := newRX(plugintypes.OperatorOptions{Arguments: pat, RxPreFilterEnabled: true})
+		off, err2 := newRX(plugintypes.OperatorOptions{Arguments: pat, RxPreFilterEnabled: false})
+		if err1 != nil || err2 != nil {
+			panic("pattern rejected: " + pat)
+		}
+		return &vpRxPair{on, off}
+	}).(*vpRxPair)
+	capture := vp.Choice("capture", 2) == 1
+	txOn := &vpRxTx{capturing: capture}
+	txOff := &vpRxTx{capturing: capture}
+	gotOn := pair.on.Evaluate(txOn, in)
+	gotOff := pair.off.Evaluate(txOff, in)
+	vp.Assert(gotOn == gotOff, "@rx "+pat+" on a non-ASCII input: match result differs with the prefilter on")
+	vp.Assert(len(txOn.caps) == len(txOff.caps), "@rx "+pat+" on a non-ASCII input: number of captured fields differs with the prefilter on")
+	for i := 0; i < len(txOn.caps) && i < len(txOff.caps); i++ {
+		vp.Assert(txOn.caps[i].idx == txOff.caps[i].idx && txOn.caps[i].val == txOff.caps[i].val, "@rx "+pat+" on a non-ASCII input: captured field differs with the prefilter on")
+	}
+	vp.Reached("end")
+}
